@@ -15,9 +15,11 @@ Line == Trace[l]
 Init == l = 1 /\ viol = {} /\ last = <<>> /\ n = 0
 
 (* StringAll is taken under one read lock: (name, tick, listedActive)          *)
+(* String() lists the active states with their ticks, also one snapshot         *)
 AtomicOK(x) ==
-  \A i \in 1..Len(x.strall) :
-     IsActiveTick(x.strall[i][2]) <=> x.strall[i][3]
+  /\ \A i \in 1..Len(x.strall) :
+        IsActiveTick(x.strall[i][2]) <=> x.strall[i][3]
+  /\ \A i \in 1..Len(x.str) : IsActiveTick(x.str[i][2])
 
 Monotone(prev, cur) ==
   prev = <<>> \/ Len(prev) # Len(cur) \/ \A i \in 1..Len(cur) : cur[i] >= prev[i]
